@@ -1,0 +1,34 @@
+// SPDX-FileCopyrightText: 2023 The Pion community <https://pion.ly>
+// SPDX-License-Identifier: MIT
+
+//go:build verif
+// +build verif
+
+package stun
+
+import (
+	"hash"
+
+	"github.com/pion/stun/v3/internal/hmac"
+)
+
+// Re-exports of the internal pooled HMAC for the verification harness (an internal package
+// cannot be imported from outside this module). Compiled only with the "verif" build tag.
+
+// VerifAcquireSHA1 is hmac.AcquireSHA1.
+func VerifAcquireSHA1(key []byte) hash.Hash { return hmac.AcquireSHA1(key) }
+
+// VerifPutSHA1 is hmac.PutSHA1.
+func VerifPutSHA1(h hash.Hash) { hmac.PutSHA1(h) }
+
+// VerifAcquireSHA256 is hmac.AcquireSHA256.
+func VerifAcquireSHA256(key []byte) hash.Hash { return hmac.AcquireSHA256(key) }
+
+// VerifPutSHA256 is hmac.PutSHA256.
+func VerifPutSHA256(h hash.Hash) { hmac.PutSHA256(h) }
+
+// VerifHMACNew is hmac.New.
+func VerifHMACNew(h func() hash.Hash, key []byte) hash.Hash { return hmac.New(h, key) }
+
+// VerifHMACEqual is hmac.Equal.
+func VerifHMACEqual(a, b []byte) bool { return hmac.Equal(a, b) }
